@@ -186,6 +186,9 @@ PROPS["C04"]["phases"] = [ph("miri", 90, ["tiny"]), ph("asan", 60)]
 PROPS["C05"]["phases"] = [ph("asan", 60)]
 PROPS["C06"]["phases"] = [ph("miri", 45, ["tiny"], quick=True, shards=8), ph("tsan", 90), ph("miri", 120, ["tiny"])]
 PROPS["C13"]["phases"] = [ph("tsan", 120), ph("miri", 120, ["tiny"])]
+PROPS["C14"]["phases"] = [ph("asan-bin", 120)]
+PROPS["C15"]["phases"] = [ph("asan-bin", 180, timeout_factor=4), ph("tsan-bin", 180, timeout_factor=4)]
+PROPS["C16"]["phases"] = [ph("asan-bin", 180, timeout_factor=4), ph("tsan-bin", 180, timeout_factor=4)]
 PROPS["C17"]["phases"] = [ph("asan", 60)]
 PROPS["C18"]["phases"] = [ph("miri", 45, ["tiny"], quick=True, shards=8), ph("asan", 60), ph("miri", 120, ["tiny"])]
 PROPS["C20"]["phases"] = [ph("miri", 120, ["tiny"]), ph("miri", 120, ["extract_only"], shards=8, env={"VMON_TINY": "1"}), ph("valgrind", 90, ["extract_only"]), ph("asan", 60)]
